@@ -2,6 +2,7 @@
 //   positions <seed> <n>                 FENs: tricky list, game positions, synthetic templates
 //   games <seed> <n> <maxplies> <style>  "<startfen> | m1 m2 ..."   (style 0..3; start = initial position unless style>=10: tricky starts)
 //   mates <seed> <n> <maxN>              "<fen> | <N>"  positions where the side to move mates in exactly N<=maxN (N minimal)
+//   onlyreply <seed> <n>                 "<fen> | check | reply | type"  a check that leaves exactly one legal reply
 //   mate1 <seed> <n>                     "<fen> | m1 m2.."  positions with a mate in one, all mating moves listed
 //   few <seed> <n> <maxmen>              pawnless positions with <= maxmen men ("<fen>")
 #include "refchess.hpp"
@@ -11,6 +12,88 @@
 #include <algorithm>
 using namespace ref;
 using posgen::Rng;
+
+// Classify the single legal reply to a check (evidence + stratified sampling)
+static const char* replyType(const Pos& c, const Mv& m) {
+    int k = kindOf(c.b[m.from]);
+    if (k == K_K) return isCapture(c, m) ? "king-capture" : "king-move";
+    if (isEnPassant(c, m)) return "ep-capture";
+    if (isCapture(c, m)) return m.promo ? "promo-capture" : "capture";
+    if (k == K_P) { if (m.promo) return "block-promo"; return std::abs(m.to - m.from) == 16 ? "block-pawn2" : "block-pawn1"; }
+    return "block-piece";
+}
+
+// Position (defender to move, in check from a slider) built so that a pawn double step onto the checking line
+// exists; other men are sprinkled at random. The caller filters for "exactly one legal reply".
+static bool block2After(Rng& r, Pos& out) {
+    Pos p; bool defWhite = r.chance(50);
+    int f = r.below(8), r7 = defWhite ? 1 : 6, r6 = defWhite ? 2 : 5, r5 = defWhite ? 3 : 4;
+    int T = sq(f, r5);
+    static const int dirs[6][2] = {{1,0},{-1,0},{1,1},{1,-1},{-1,1},{-1,-1}};
+    const int* d = dirs[r.below(6)];
+    auto at = [&](int k) { int ff = f + k * d[0], rr = r5 + k * d[1]; return (ff < 0 || ff > 7 || rr < 0 || rr > 7) ? -1 : sq(ff, rr); };
+    int kmax = 0, jmax = 0;
+    while (at(kmax + 1) >= 0) kmax++;
+    while (at(-(jmax + 1)) >= 0) jmax++;
+    if (!kmax || !jmax) return false;
+    int ks = at(r.range(1, kmax)), as = at(-r.range(1, jmax));
+    p.b[sq(f, r7)] = defWhite ? WP : BP;
+    p.b[ks] = defWhite ? WK : BK;
+    bool diag = d[0] && d[1];
+    p.b[as] = (defWhite ? BK : WK) + (r.chance(40) ? K_Q : (diag ? K_B : K_R));
+    if (p.b[sq(f, r6)] || p.b[T]) return false;
+    // the line between attacker and king must stay empty
+    std::vector<int> line; for (int k = -jmax; k <= kmax; k++) { int s = at(k); if (s == as || s == ks) continue; bool between = false;
+        // between iff walking from as in direction d reaches s before ks
+        for (int q = 1; ; q++) { int ff = fileOf(as) + q * d[0], rr = rankOf(as) + q * d[1]; if (sq(ff, rr) == ks) break; if (sq(ff, rr) == s) { between = true; break; } }
+        if (between) line.push_back(s); }
+    auto reserved = [&](int s) { if (s == sq(f, r6)) return true; for (int x : line) if (x == s) return true; return false; };
+    int ak; do ak = r.below(64); while (p.b[ak] || reserved(ak)); p.b[ak] = defWhite ? BK : WK;
+    // defender's own men around the king, attacker's men anywhere
+    int nown = r.range(1, 6);
+    for (int i = 0; i < nown; i++) {
+        int s = sq(std::min(7, std::max(0, fileOf(ks) + r.range(-1, 1))), std::min(7, std::max(0, rankOf(ks) + r.range(-1, 1))));
+        if (p.b[s] || reserved(s)) continue;
+        int kind = (const int[]){K_P, K_P, K_P, K_R, K_B, K_N, K_Q}[r.below(7)];
+        if (kind == K_P && (rankOf(s) == 0 || rankOf(s) == 7)) kind = K_N;
+        p.b[s] = (defWhite ? WK : BK) + kind;
+    }
+    int natt = r.range(0, 4);
+    for (int i = 0; i < natt; i++) {
+        int s = r.below(64); if (p.b[s] || reserved(s)) continue;
+        int kind = (const int[]){K_Q, K_R, K_R, K_B, K_N, K_P}[r.below(6)];
+        if (kind == K_P && (rankOf(s) == 0 || rankOf(s) == 7)) kind = K_N;
+        p.b[s] = (defWhite ? BK : WK) + kind;
+    }
+    p.wtm = defWhite; p.hmc = r.below(20); p.fullMove = 1 + r.below(60);
+    if (!plausible(p) || !posgen::countsOk(p) || !inCheck(p)) return false;
+    out = p; return true;
+}
+
+// Retract the checking slider's last move: attacker to move, defender not in check, and moving back gives `after`.
+static bool retractChecker(Rng& r, const Pos& after, Pos& before, Mv& mv) {
+    int ks = after.kingSq(after.wtm);
+    std::vector<std::pair<int,int>> cand; // (checker square, origin)
+    for (int s = 0; s < 64; s++) {
+        int pc = after.b[s]; if (!pc || isWhite(pc) == after.wtm) continue;
+        int k = kindOf(pc); if (k != K_Q && k != K_R && k != K_B) continue;
+        Pos t = after; t.b[s] = EMPTY; if (attacked(t, ks, !after.wtm)) continue; // not the (only) checker
+        for (int o = 0; o < 64; o++) {
+            if (after.b[o]) continue;
+            Pos b = after; b.b[s] = EMPTY; b.b[o] = pc; b.wtm = !after.wtm; b.ep = -1;
+            if (!plausible(b)) continue;
+            Mv m; m.from = o; m.to = s; m.promo = EMPTY;
+            if (!isLegal(b, m)) continue;
+            cand.push_back({s, o});
+        }
+    }
+    if (cand.empty()) return false;
+    auto c = cand[r.below((int)cand.size())];
+    before = after; before.b[c.second] = after.b[c.first]; before.b[c.first] = EMPTY; before.wtm = !after.wtm; before.ep = -1;
+    before.hmc = after.hmc ? after.hmc - 1 : 0;
+    mv.from = c.second; mv.to = c.first; mv.promo = EMPTY;
+    return true;
+}
 
 static Pos attackPos(Rng& r) {
     // lone or exposed king vs heavy pieces nearby
@@ -228,6 +311,35 @@ int main(int argc, char** argv) {
                 Pos t = c; for (int s = 0; s < 64; s++) if (s != m.to && t.b[s] && isWhite(t.b[s]) == p.wtm && kindOf(t.b[s]) != K_K) t.b[s] = EMPTY;
                 if (!attacked(t, c.kingSq(c.wtm), p.wtm)) disc = true; }
             std::cout << " |" << (promo ? " promo" : "") << (ep ? " ep" : "") << (castle ? " castle" : "") << (dbl ? " double" : "") << (disc ? " discovered" : "") << "\n"; done++;
+        }
+    } else if (mode == "onlyreply") {
+        // "<fen before> | <checking move> | <only reply> | <type>": a check that leaves exactly one legal reply.
+        // Half of the cases are constructed so that the reply is a pawn double step onto the checking line.
+        long done = 0; long guard = 0;
+        while (done < n && guard++ < 200000000L) {
+            int k = r.below(10);
+            if (k < 5) {
+                Pos a; if (!block2After(r, a)) continue;
+                std::vector<Mv> l; genLegal(a, l); if (l.size() != 1) continue;
+                if (std::string(replyType(a, l[0])) != "block-pawn2" && !r.chance(10)) continue;
+                Pos b; Mv m; if (!retractChecker(r, a, b, m)) continue;
+                if (!(toFEN(make(b, m)).substr(0, toFEN(a).find(' ')) == toFEN(a).substr(0, toFEN(a).find(' ')))) continue;
+                std::cout << toFEN(b) << " | " << mvStr(m) << " | " << mvStr(l[0]) << " | " << replyType(a, l[0]) << "\n"; done++;
+                continue;
+            }
+            Pos p;
+            if (k < 7) p = attackPos(r);
+            else if (k < 8) p = posgen::synthetic(r, r.below(posgen::T_NTEMPLATES));
+            else { posgen::Game g = posgen::randomGame(r, tricky[r.below((int)tricky.size())], r.range(4, 100), posgen::TACTICAL); p = g.pos.back(); if (!epLegal(p)) p.ep = -1; }
+            std::vector<Mv> l; genLegal(p, l);
+            std::vector<std::pair<Mv, Mv>> hits;
+            for (auto& m : l) { Pos c = make(p, m); if (!inCheck(c)) continue; std::vector<Mv> rep; genLegal(c, rep); if (rep.size() == 1) hits.push_back({m, rep[0]}); }
+            if (hits.empty()) continue;
+            auto h = hits[r.below((int)hits.size())];
+            Pos c = make(p, h.first);
+            std::string ty = replyType(c, h.second);
+            if ((ty == "king-move" || ty == "king-capture") && !r.chance(25)) continue;
+            std::cout << toFEN(p) << " | " << mvStr(h.first) << " | " << mvStr(h.second) << " | " << ty << "\n"; done++;
         }
     } else if (mode == "c11") {
         long done = 0;
